@@ -59,7 +59,7 @@ def run(ctx):
                    "TraceVec", "", consts(esz, hasx), props)
     # a million 12-byte elements with constructor and destructor: counts, bytes kept across reallocations, capacities
     from . import p_big
-    p_big.big_phase(ctx, ["vec:1000000"] if ctx.quick else ["vec:1000000", "vec:5000000"])
+    p_big.big_phase(ctx, ["vec:1000000", "vechuge:1"] if ctx.quick else ["vec:1000000", "vec:5000000", "vechuge:1"])
     ctx.assumptions += [
         "TLC and the TLA+ text of StorageOK / KeepOK / XtorOK / C09OK are trusted",
         "allocation sizes and liveness come from the link-time allocator interposer (harness/alloc.h), which refuses requests >= 2^40 bytes",
